@@ -89,6 +89,18 @@ REGISTRY = {
                 "representable (representability is an obligation of each slice)",
                 "1e-9 is read as the Python literal (the double nearest to 10**-9) in code and spec",
                 "the event-level sentences of C06 are C02/C03/C04 instantiated with the proved window counts"]},
+    "C07": {"module": "props.validator", "units": ["to_array", "energy", "selector", "is_valid", "monotone"],
+            "witness": "api", "assumptions": [
+                "numpy is a LIBRARY MODEL (pyvc/npmodel.py, assumed): frombuffer(int8/16/32) = signed little-endian decode of "
+                "consecutive width-byte groups (little-endian host), astype(float64) exact, reshape(c,-1,order='F')[j][i] = flat[j+i*c] "
+                "(order='C' modelled too), x[k], mean(axis), x**2, sqrt, log10, clip, max as described there",
+                "reductions (mean/max over an axis of symbolic extent) are uninterpreted functions keyed by the canonical syntax of "
+                "the reduced body: equal bodies give equal reductions (extensionality assumed); over one element they are the element",
+                "real arithmetic: IEEE rounding of mean/sqrt/log10 is NOT modelled -- a window whose exact energy is within "
+                "rounding distance of the threshold is outside what is proved (DESIGN section 8)",
+                "sqrt/log10 axioms (instantiated): y>=0 => sqrt(y)>=0 and (sqrt(y)>0 <=> y>0); y>0 => log10(y) = 2*log10(sqrt(y)); "
+                "log10(1e-10) = -10; the -200 dB floor is en(y) = -200 if sqrt(y) < 1e-10 else 10*log10(y)",
+                "sample widths are case-split over {1, 2, 4, other}; channel count and window length are symbolic"]},
     "C08": {"parts": [{"module": "props.tokenizer", "units": ["lemmas", "process", "post_process", "iter_tokens", "tokenize"]},
                       {"module": "props.split", "units": ["split"]},
                       {"module": "props.readers", "units": ["fixed", "overlap_iter", "overlap_misc"]}],
@@ -134,6 +146,14 @@ REGISTRY = {
                 "sum() is 0 + r1 (-> __radd__) followed by __add__",
                 "division: 'sum of the pieces equals the original' follows from the proved tiling "
                 "(pieces are self[s(j):s(j+1)], s(0)=0, s(count)=len) by the proved concat lemma and induction on the piece count"]},
-    "C20": {"module": "props.tokenizer", "units": ["lemmas", "process", "post_process", "iter_tokens"],
-            "witness": "tok", "assumptions": TOK_ASSUME},
+    "C20": {"parts": [{"module": "props.tokenizer", "units": ["lemmas", "process", "post_process", "iter_tokens"]},
+                      {"module": "props.split", "units": ["split"]},
+                      {"module": "props.validator", "units": ["is_valid"]},
+                      {"module": "props.sources", "units": ["buffer_position", "buffer_init"]},
+                      {"module": "props.readers", "units": ["recorder", "replay_lemma"]}],
+            "witness": "tok", "assumptions": TOK_ASSUME + [
+                "split(): every call builds a new reader, validator and tokenizer (constructor contracts) and reads a region's "
+                "immutable bytes; is_valid assigns no field (frame obligation), numpy functions are pure (assumed); "
+                "BufferAudioSource.close() returns to position 0; a rewound recorder replays its recording (C19)",
+                "two interleaved generators of ONE tokenizer share state and are outside the statement"]},
 }
